@@ -33,7 +33,7 @@ INVALID = ["\\d", "a*?", "a+?", "a??", "(?i)a", "(?:a)", "(?=a)", "(?<n>a)", "[[
            "*a", "+", "?", "a|*", "\\", "a\\", "[a\\]", "\\a", "\\e", "\\x41", "\\u0041", "\\cA", "[\\d]", "[\\w]", "a{1,2,3}", "a{a}",
            "a{1", "[^]a", "(?#c)a", "\\Z", "\\A", "[a-\\d]", "\\p{Lx}", "\\P{}", "[[:alpha:]]", "a{ 1}", "\\/", "\\'", "\\\"", "\\ ",
            "[a&&[b]]", "(*)"]
-DONTCARE = ["^a", "a$", "^a$", "[^]", "[b-a]", "a{2,1}", "a{7}", "a{1,99}", "a{10000}"]
+DONTCARE = ["^a", "a$", "^a$", "[^]", "[b-a]", "[z-a]", "x[9-0]y", "[^z-a]", "a{2,1}", "(ab){3,2}", "a{7}", "a{1,99}", "a{10000}", "[a-c-]{2,1}"]
 SUBJ_ALPHA = ["a", "b", "A", "1", ".", "|", "&", "~", "-", "[", "]", " ", "\n", "\r", " ", "😀", "é", ",", "^", "(", "*", "\\",
               "{", "=", "!", "_", "+", "$"]
 
